@@ -429,6 +429,8 @@ def resolve(prog, overrides=None, executable=True, anon=False):
                 if len(m["params"]) != len(s["args"]):
                     raise Invalid("macro arity")
                 vals = [arg_value(a, scope) for a in s["args"]]
+                if any(v[0] == "r" for v in vals):
+                    R.features.add("register_macro_arg")
                 new_scope = dict(zip(m["params"], vals))
                 R.features.add("macro_call")
                 if stack:
@@ -504,6 +506,33 @@ def resolve(prog, overrides=None, executable=True, anon=False):
         for s in walk([m["body"]]):
             if s["k"] == "gate" and s["name"] in order and order[s["name"]] >= order[m["name"]]:
                 raise Invalid("macro calls later macro")
+
+    # static check of every definition (called or not): a concrete index into a concrete
+    # register or alias must be in range under the environment
+    for m in prog["macros"]:
+        ps = set(m["params"])
+        for s in walk([m["body"]]):
+            if s["k"] != "gate":
+                continue
+            for a in s["args"]:
+                if a[0] == "item" and (a[1] in ps or a[2] in ps):
+                    R.features.add("param_indexing")
+                if a[0] == "item" and a[1] not in ps:
+                    if a[1] not in regs:
+                        raise Invalid("indexing non-register %s in macro" % a[1])
+                    ix = a[2]
+                    if isinstance(ix, str):
+                        if ix in ps:
+                            continue
+                        if ix not in lets:
+                            raise Invalid("unknown index %s" % ix)
+                        ix = lets[ix]
+                    if not _is_intlike(ix) or not 0 <= ix < len(regs[a[1]]):
+                        raise Invalid("index out of range in macro definition")
+                elif a[0] == "id" and a[1] not in ps and a[1] not in lets and a[1] not in singles and a[1] not in regs:
+                    raise Invalid("unknown identifier %s in macro" % a[1])
+                elif a[0] == "id" and a[1] not in ps and a[1] in regs:
+                    R.features.add("register_macro_arg")
 
     R.tree = ("seq", [do_stmt(s, {}, ()) for s in prog["body"]])
     check_structure(prog)
